@@ -24,6 +24,11 @@ TRANSFORMS = ['rekey0', 'rekey-sparse', 'reorder', 'reverse', 'rename', 'signatu
 INTERNAL_NAMES = ['eta_1', 'eta_2', 'mv_1', 'mf_1', 'mv_query', 'gamma-_1', 'eta_3', 'mf_2']
 REQUIRED = {'quick': {'t_' + t: 8 for t in TRANSFORMS}, 'thorough': {'t_' + t: 200 for t in TRANSFORMS}}
 HOSTILE_NAMES = ['A', 'B1', 'x1', 'a-b', 'a_b', 'Topp', 'bottom', 'Z9', 'q-1_x', 'signature1', 'v', 'f', 'nf']
+# names that LOOK like helper symbols a solver-based implementation might create for itself (Boolean ones; the
+# integer ones of the c-inference encoding are exercised separately, see INTERNAL_NAMES)
+HELPER_LIKE = ['%s_%d' % (w, i) for w in ('tol', 'sel', 'aux', 'tmp', 'var', 'lit', 'act', 'asm', 'ind', 'sw', 'x', 'y',
+                                           's', 't', 'b', 'p', 'q', 'c', 'r', 'h', 'k', 'w', 'fresh', 'soft', 'hard',
+                                           'layer', 'cond', 'block', 'tie') for i in (0, 1, 2)] + ['dummy1', 'dummy2', 'query', 'FV0', 'FV1']
 
 
 def cases(tier, seed):
@@ -165,7 +170,7 @@ def run_case(case):
 
     def t_rename():
         nonlocal sig2, conds2, qs2
-        names = rng.sample(HOSTILE_NAMES, len(sig))
+        names = rng.sample(HELPER_LIKE if rng.random() < 0.5 else HOSTILE_NAMES + HELPER_LIKE[:12], len(sig))
         m = dict(zip(sig, names))
         sig2 = [m.get(a, a) for a in sig2]
         conds2 = [(fml.rename(B, m), fml.rename(A, m)) for (B, A) in conds2]
